@@ -444,4 +444,151 @@ theorem program_correct_numeric {env : Env} (he : EnvOK env) {N S : Nat} (hN : 0
   rw [key ops _ hm, ← sizes_all]
   exact hS
 
+/-! ### parameter sets: the numeric side conditions are decided -/
+
+/-- a CKKS parameter set: radix, accumulator family (`big`: 128-bit accumulators of NTT120, else the 64-bit ones of FFT64), ring degree,
+limbs per ciphertext, rows of the evaluation keys -/
+structure ParamSet where
+  b : Nat
+  big : Bool
+  N : Nat
+  S : Nat
+  D : Nat
+deriving Repr, DecidableEq
+
+/-- the numeric side conditions of a parameter set: radix range, and the head-room of the convolution accumulators (tensor product,
+plaintext product) and of the gadget-product accumulators (relinearisation, automorphisms) for balanced key digits -/
+def ParamSet.Room (p : ParamSet) : Prop :=
+  1 ≤ p.b ∧ p.b ≤ 61 ∧ 0 < p.N ∧
+  (2 : Int) ^ p.b * (4 * (p.S : Int) * p.N * 2 ^ p.b) + 8 ≤ 2 ^ (bitsOf p.big - 2) ∧
+  (p.D : Int) * (p.N * 2 ^ (p.b - 1) * 2 ^ (p.b - 1)) + 3 * 2 ^ (p.b - 1) + 8 ≤ 2 ^ (bitsOf p.big - 2) ∧
+  (p.D : Int) * (p.N * 2 ^ (p.b - 1) * 2 ^ (p.b - 1)) + (2 ^ (p.b - 1) + 2 ^ p.b) + 8 ≤ 2 ^ (bitsOf p.big - 2) ∧
+  (p.S : Int) * (p.N * 2 ^ p.b * 2 ^ p.b) + 8 ≤ 2 ^ (bitsOf p.big - 2)
+
+instance (p : ParamSet) : Decidable p.Room := by unfold ParamSet.Room; infer_instance
+
+/-- the parameter sets of the crate's CKKS test suite (`poulpy-ckks/src/leveled/tests/test_suite/mod.rs`, `n = 256`, rank 1, `dsize = 1`):
+`NTT120_PARAMS_F64` (`base2k = 52`, `k = 320`: 7 limbs, keys of 8 rows), `NTT120_PARAMS_F128` (`k = 640`: 13 limbs, 14 rows),
+`FFT64_PARAMS_F64` (`base2k = 19`, `k = 152`: 8 limbs, 9 rows), and the radix 17 of the reproductions (9 limbs, 10 rows) -/
+def ntt120F64 : ParamSet := ⟨52, true, 256, 7, 8⟩
+def ntt120F128 : ParamSet := ⟨52, true, 256, 13, 14⟩
+def fft64R19 : ParamSet := ⟨19, false, 256, 8, 9⟩
+def fft64R17 : ParamSet := ⟨17, false, 256, 9, 10⟩
+
+theorem ntt120F64_room : ntt120F64.Room := by decide
+theorem ntt120F128_room : ntt120F128.Room := by decide
+theorem fft64R19_room : fft64R19.Room := by decide
+theorem fft64R17_room : fft64R17.Room := by decide
+
+/-- well-formedness of the tensor key (no numeric head-room): shape, coverage of `S` limbs, at most `D` rows, balanced digits, the key
+relation `Σ_j K[r][j]·s' = (s²)·2^(…) + EL r + 2^(…)·KL r` with `‖EL r‖∞ ≤ Emax` — what C01/C03 state about generated keys -/
+structure TskWF (env : Env) (N S D : Nat) (mk : MulKey) (s : List Poly) (Emax : Int) : Prop where
+  hgb : mk.tsk.base2k = env.base2k
+  hgn : mk.tsk.n = N
+  hci : mk.tsk.colsIn = 1
+  hco : mk.tsk.colsOut = 2
+  hd1 : mk.tsk.dsize = 1
+  hM : ∀ j q, (mk.tsk.toPMat.entry j q).length = N
+  hS : mk.tsk.dnum ≤ mk.tsk.size
+  hD : mk.tsk.dnum ≤ D
+  hcov1 : S ≤ mk.tsk.size
+  hcov2 : S ≤ mk.tsk.dnum
+  hs : s ≠ []
+  hs1 : (s.getD 0 []).length = N
+  hkey : ∃ EL KL : ℕ → ℕ → Poly, (∀ i r, (EL i r).length = N) ∧ (∀ i r, (KL i r).length = N) ∧
+    (∀ i, i < 1 → ∀ r, r < mk.tsk.dnum →
+      Gadget.val (Ks.radix N env.base2k) mk.tsk.size (Ks.keyPhase N s mk.tsk.toPMat i r) =
+        Ks.ι N (([Hal.negMul (s.getD 0 []) (s.getD 0 [])] : List Poly).getD i []) * Ks.radix N env.base2k ^ (mk.tsk.size - (r + 1) * mk.tsk.dsize)
+          + Ks.ι N (EL i r) + Ks.radix N env.base2k ^ mk.tsk.size * Ks.ι N (KL i r)) ∧
+    (∀ i r, Hal.normInf (EL i r) ≤ Emax)
+  hK : ∀ j q, ∀ x ∈ mk.tsk.toPMat.entry j q, |x| ≤ 2 ^ (env.base2k - 1)
+  hE0 : 0 ≤ Emax
+
+/-- well-formedness of one automorphism key (no numeric head-room) -/
+structure AutKeyWF (env : Env) (N : Nat) (key : Ks.Key) (s : List Poly) (gInv : Int) (EL KL : ℕ → ℕ → Poly) (Emax : Int) : Prop where
+  hkb : key.base2k = env.base2k
+  hd : key.dsize = 1
+  hg : GalOk key.p N
+  hsk : Ks.AllLen N s
+  hinv : ∀ p ∈ s, σ key.p (σ gInv p) = p
+  hrin : key.rankIn = 1
+  hrout : key.rankOut = 1
+  hc0 : 0 < key.mat.colsOut
+  hci : key.mat.colsIn = 1
+  hM : ∀ j q, (key.mat.entry j q).length = N
+  hS : key.mat.rows ≤ key.mat.size
+  hs : key.mat.colsIn ≤ s.length
+  hEL : ∀ i r, (EL i r).length = N
+  hKL : ∀ i r, (KL i r).length = N
+  hkey : ∀ i, i < key.mat.colsIn → ∀ r, r < key.mat.rows →
+    Gadget.val (Ks.radix N key.base2k) key.mat.size (Ks.keyPhase N (s.map (σ gInv)) key.mat i r) =
+      Ks.ι N (s.getD i []) * Ks.radix N key.base2k ^ (key.mat.size - (r + 1) * key.dsize) + Ks.ι N (EL i r)
+        + Ks.radix N key.base2k ^ key.mat.size * Ks.ι N (KL i r)
+  hK : ∀ j q, ∀ x ∈ key.mat.entry j q, |x| ≤ 2 ^ (env.base2k - 1)
+  hE0 : 0 ≤ Emax
+  hE : ∀ i r, Hal.normInf (EL i r) ≤ Emax
+
+/-- well-formedness of the automorphism keys of a run: a key for every rotation the metadata model knows and for the conjugation, each
+well formed, of at most `D` rows, covering `S` limbs, with error constant at most `Ua` -/
+structure AtkWF (env : Env) (N S D : Nat) (ak : AutKeys) (s : List Poly) (Emax : Int) (Ua : ℚ) : Prop where
+  hrot : ∀ k, env.rotKeys.contains k = true → ∃ key, ak.get k = some key
+  hconj : ∃ key, ak.conj = some key
+  hkeys : ∀ key, ((∃ k, ak.get k = some key) ∨ ak.conj = some key) → ∃ (gInv : Int) (EL KL : ℕ → ℕ → Poly),
+    AutKeyWF env N key s gInv EL KL Emax ∧ key.mat.rows ≤ D ∧ S ≤ key.mat.size ∧ S ≤ key.mat.rows ∧
+    (((key.mat.colsIn * (key.mat.rows * (N * 2 ^ (env.base2k - 1) * Emax)) : Int) : ℚ)
+      + ((1 + snorm (min 1 (s.map (σ gInv)).length) (s.map (σ gInv)) : Int) : ℚ)) ≤ Ua
+
+theorem TskWF.toNum {env : Env} {p : ParamSet} (hr : p.Room) (hb : env.base2k = p.b) {mk : MulKey} (hbig : mk.big = p.big) {s : List Poly}
+    {Emax : Int} (h : TskWF env p.N p.S p.D mk s Emax) : TskNum env p.N p.S mk s (2 ^ (env.base2k - 1)) Emax := by
+  obtain ⟨_, _, _, r1, r2, _, _⟩ := hr
+  refine ⟨h.hgb, h.hgn, h.hci, h.hco, h.hd1, h.hM, h.hS, h.hcov1, h.hcov2, h.hs, h.hs1, h.hkey, by positivity, h.hK, h.hE0, ?_, ?_⟩
+  · rw [hb, hbig]
+    refine le_trans ?_ r2
+    have hD : (((1 * mk.tsk.dnum : Nat)) : Int) ≤ p.D := by have := h.hD; push_cast; omega
+    have h0 : (0 : Int) ≤ (p.N : Int) * 2 ^ (p.b - 1) * 2 ^ (p.b - 1) := by positivity
+    have := mul_le_mul_of_nonneg_right hD h0
+    linarith
+  · rw [hb, hbig]; exact r1
+
+theorem AutKeyWF.toNum {env : Env} {p : ParamSet} (hr : p.Room) (hb : env.base2k = p.b) {key : Ks.Key} {s : List Poly} {gInv : Int}
+    {EL KL : ℕ → ℕ → Poly} {Emax : Int} (h : AutKeyWF env p.N key s gInv EL KL Emax) (hD : key.mat.rows ≤ p.D) :
+    AutKeyNum env p.N 1 p.big key s gInv EL KL (2 ^ (env.base2k - 1)) Emax := by
+  obtain ⟨_, _, _, _, _, r3, _⟩ := hr
+  refine ⟨h.hkb, h.hd, h.hg, h.hsk, h.hinv, h.hrin, h.hrout, h.hc0, h.hM, h.hS, h.hs, h.hEL, h.hKL, h.hkey, by positivity, h.hK, h.hE0, h.hE, ?_⟩
+  rw [hb]
+  refine le_trans ?_ r3
+  have hD' : (((key.mat.colsIn * key.mat.rows : Nat)) : Int) ≤ p.D := by rw [h.hci]; push_cast; omega
+  have h0 : (0 : Int) ≤ (p.N : Int) * 2 ^ (p.b - 1) * 2 ^ (p.b - 1) := by positivity
+  have := mul_le_mul_of_nonneg_right hD' h0
+  linarith
+
+theorem AtkWF.toNum {env : Env} {p : ParamSet} (hr : p.Room) (hb : env.base2k = p.b) {ak : AutKeys} {s : List Poly} {Emax : Int} {Ua : ℚ}
+    (h : AtkWF env p.N p.S p.D ak s Emax Ua) : AtkNum env p.N p.S p.big ak s (2 ^ (env.base2k - 1)) Emax Ua := by
+  refine ⟨h.hrot, h.hconj, fun key hkey => ?_⟩
+  obtain ⟨gInv, EL, KL, hwf, hD, c1, c2, hU⟩ := h.hkeys key hkey
+  exact ⟨gInv, EL, KL, hwf.toNum hr hb hD, c1, c2, hU⟩
+
+/-- **`ckks_program_correct`**: for a parameter set whose numeric side conditions hold (`ParamSet.Room`, decided for the crate's test
+parameter sets: `ntt120F64_room`, `ntt120F128_room`, `fft64R19_room`, `fft64R17_room`), ciphertexts of `S` limbs and well-formed evaluation
+keys, every program the metadata model accepts returns — on the data path — the metadata of the model, well-formed ciphertexts of balanced
+digits, and decoded coefficients within the explicit budget `xspecRun` (constants `UcOf`, `Ua`).
+
+What is left as hypothesis: key well-formedness (`TskWF`, `AtkWF`), well-formed plaintext operands of at most `S` limbs (`OpsOK`: the output
+of the float → integer conversion and `encode`), the initial ciphertexts (`AllOK`: balanced digits; their tracking `TracksB` is what
+encryption provides), and that `ckks_dot_product_ct` is not on its fused path. -/
+theorem ckks_program_correct (p : ParamSet) (hr : p.Room) {env : Env} (hb : env.base2k = p.b) {mk : MulKey} (hbig : mk.big = p.big)
+    {ak : AutKeys} {s : List Poly} {Emax : Int} {Ua : ℚ} (hUa : 0 ≤ Ua)
+    (ht : TskWF env p.N p.S p.D mk s Emax) (hk : AtkWF env p.N p.S p.D ak s Emax Ua)
+    (ops : List XOp) {pool : DPool} (hp : AllOK env p.N 1 pool) (hS : ∀ c ∈ pool, c.g.size = p.S)
+    (hops : OpsOK env p.N p.S (DPool.cts pool) ops) {mp : Pool} (hm : run env (DPool.cts pool) (ops.map XOp.toOp) = .ok mp) :
+    ∃ pool', xrun env p.N mk ak pool ops = .ok pool' ∧ DPool.cts pool' = mp ∧ AllOK env p.N 1 pool' ∧ (∀ c ∈ pool', c.g.size = p.S) ∧
+      ∀ τ, TracksB s p.N pool τ →
+        TracksB s p.N pool' (xspecRun env p.N ak (sn 1 s) (UcOf env p.N p.S mk s Emax) Ua (DPool.cts pool) τ ops) := by
+  have he : EnvOK env := ⟨by rw [hb]; exact hr.1, by rw [hb]; exact hr.2.1⟩
+  have hroomPt : (p.S : Int) * (p.N * 2 ^ env.base2k * 2 ^ env.base2k) + 8 ≤ 2 ^ (bitsOf mk.big - 2) := by
+    rw [hb, hbig]; exact hr.2.2.2.2.2.2
+  have hkn := hk.toNum hr hb
+  rw [← hbig] at hkn
+  exact program_correct_numeric he hr.2.2.1 hUa (ht.toNum hr hb hbig) hkn hroomPt ops hp hS hops hm
+
 end Ckks
